@@ -134,6 +134,10 @@ func registerEnvIntrinsics(reg func(string, intrinsicFn)) {
 		p.o.slots[l.fields[4]] = Str{S: "/nonexistent"}
 		return Tuple{p, Iface{}}, true
 	})
+	reg("(*"+repoPath+"/internal/editor.Buffers).EditBuffer", func(m *Machine, c *frame, fn *ssa.Function, a []Value) (Value, bool) {
+		// the external editor (os/exec, temp files) is outside every claim: the path ends here
+		panic(pathEnd{kind: "out-of-scope", msg: "external editor command"})
+	})
 	reg("os/exec.Command", func(m *Machine, c *frame, fn *ssa.Function, a []Value) (Value, bool) {
 		m.unsupported("os/exec (external editor) is outside every claim")
 		return nil, true
